@@ -89,7 +89,7 @@ class Node:
         return self.kind + ("(" + ",".join(map(repr, self.kids)) + ")" if self.kids else "")
 
 
-LEAN_KINDS = {"dense", "diag", "cdiag", "toep", "cmul", "mm", "sum", "addeddiag", "masked", "interp", "bdiag", "binter", "sbatch"}
+LEAN_KINDS = {"dense", "diag", "cdiag", "toep", "cmul", "mulc", "mm", "sum", "addeddiag", "masked", "interp", "bdiag", "binter", "sbatch"}
 
 
 def lean_ok(node):
@@ -110,7 +110,7 @@ def shape_of(node):
         return x["n"], x["m"]
     if k in ("diag", "cdiag", "toep", "tri", "chol", "identity"):
         return x["n"], x["n"]
-    if k in ("cmul", "brep", "sbatch"):
+    if k in ("cmul", "mulc", "brep", "sbatch"):
         return shape_of(node.kids[0])
     if k in ("sum", "addeddiag", "psdsum", "mul", "kpad", "sumkron"):
         return shape_of(node.kids[0])
@@ -161,6 +161,9 @@ def build(node, P, nb):
     if k == "cmul":
         c = P[node.leaves[0]] if x.get("raw") else _full(P, node.leaves[0], nb, ())
         return O.ConstantMulLinearOperator(kid(0), c)
+    if k == "mulc":  # the public route: op * c.view(*pattern, 1, 1)
+        c = P[node.leaves[0]]
+        return kid(0) * (c.reshape(*c.shape, 1, 1) if c.dim() else c)
     if k == "mm":
         return O.MatmulLinearOperator(kid(0), kid(1))
     if k == "sum":
@@ -237,7 +240,7 @@ def dense(node, P, nb):
         return toeplitz_dense(_full(P, node.leaves[0], nb, (x["n"],)))
     if k == "identity":
         return eye(x["n"]).expand(*nb, x["n"], x["n"])
-    if k == "cmul":
+    if k in ("cmul", "mulc"):
         c = P[node.leaves[0]].expand(nb)
         return kid(0) * c.unsqueeze(-1).unsqueeze(-1)
     if k == "mm":
@@ -331,7 +334,7 @@ def emit(node, P, nb, midx):
         return ["cdiag", str(x["n"])], _member(P, node.leaves[0], nb, (1,), midx)
     if k == "toep":
         return ["toep", str(x["n"])], _member(P, node.leaves[0], nb, (x["n"],), midx)
-    if k == "cmul":
+    if k in ("cmul", "mulc"):
         t, s = emit(node.kids[0], P, nb, midx)
         return ["cmul"] + t, s + _member(P, node.leaves[0], nb, (), midx)
     if k in ("mm", "sum", "addeddiag"):
@@ -409,7 +412,7 @@ def _red(rng, nb, mode):
     return (1,) + nb[1:]
 
 
-def instances(rng, batch, n, mode="full", psd=False):
+def instances(rng, batch, n, mode="full", psd=False, only_cpat=False):
     """Catalogue.  `mode`: "full" (every leaf has the node's batch shape) or "bcast" (leaves have smaller,
     broadcastable batch shapes and reach the constructors as expanded stride-0 views)."""
     B = tuple(batch)
@@ -424,18 +427,26 @@ def instances(rng, batch, n, mode="full", psd=False):
         def __init__(self):
             self.leaves = {}
 
-        def leaf(self, prefix, nb, core, gen):
+        def leaf(self, prefix, nb, core, gen, lead=None):
             name = nm(prefix)
-            self.leaves[name] = gen(_red(rng, nb, mode) + tuple(core))
+            self.leaves[name] = gen((_red(rng, nb, mode) if lead is None else tuple(lead)) + tuple(core))
             return name
 
-    def add(name, fn, psd_=False, exact=True, sym_prefix=("S",)):
+    def add(name, fn, psd_=False, exact=True, sym_prefix=("S",), cpat=False):
         if psd and not psd_:
+            return
+        if only_cpat and not cpat:
             return
         c = Ctx()
         node = fn(c, B)
         sym = [k for k in c.leaves if k[0] in sym_prefix]
-        out.append(Inst(name, node, c.leaves, B, psd=psd_, exact=exact, sym=sym))
+        inst = Inst(name, node, c.leaves, B, psd=psd_, exact=exact, sym=sym)
+        if cpat:
+            try:  # the constructor / `op * c` route may refuse a pattern: then it is not an instance
+                inst.build(inst.params())
+            except Exception:
+                return
+        out.append(inst)
 
     g = lambda lo=-3, hi=3: (lambda shp: ri(rng, shp, lo, hi))
     gpsd = lambda k: (lambda shp: psd_int(rng, shp[:-2], k))
@@ -498,6 +509,23 @@ def instances(rng, batch, n, mode="full", psd=False):
     add("ConstantMul(Dense<psd>)", lambda c, nb: CMul(c, nb, DensePsd(c, nb, n)), True)
     add("ConstantMul(Toeplitz)", lambda c, nb: CMul(c, nb, Toep(c, nb, n)), True, exact=False)
     add("ConstantMul(ConstantMul(Diag))", lambda c, nb: CMul(c, nb, CMul(c, nb, Diag(c, nb, n), raw=True), pos=False))
+    # ConstantMul: every broadcast pattern of the constant against the base batch, direct and through `op * c.view(...)`
+    if len(B) == 2:
+        pats = [(), B, (B[1],), (B[0], 1), (1, B[1]), (1, 1)]
+    elif len(B) == 1:
+        pats = [(), B, (1,)]
+    else:
+        pats = [()]
+    for pat in pats:
+        ptag = "x".join(map(str, pat)) or "scalar"
+        add(f"ConstantMul<c={ptag}>(Dense)", lambda c, nb, pat=pat: Node("cmul", [Dense(c, nb, n, n + 1)], leaves=[c.leaf("k", nb, (), g(-3, -1), lead=pat)], raw=True), cpat=True)
+        add(f"ConstantMul<c={ptag}>(Dense<psd>)", lambda c, nb, pat=pat: Node("cmul", [DensePsd(c, nb, n)], leaves=[c.leaf("k", nb, (), g(2, 3), lead=pat)], raw=True), True, cpat=True)
+        add(f"MulConst<c={ptag}>(Dense<psd>)", lambda c, nb, pat=pat: Node("mulc", [DensePsd(c, nb, n)], leaves=[c.leaf("k", nb, (), g(2, 3), lead=pat)]), True, cpat=True)
+        add(f"MulConst<c={ptag}>(Sum(Dense,Diag))", lambda c, nb, pat=pat: Node("mulc", [Node("sum", [Dense(c, nb, n, n), Diag(c, nb, n, pos=False)])], leaves=[c.leaf("k", nb, (), g(-3, -1), lead=pat)]), cpat=True)
+        if len(pat) == len(B):  # Block* / SumBatch (batch B) x constants: _mul_constant builds a (*B, 1) constant over a (*B, k) base
+            add(f"MulConst<c={ptag}>(BlockDiag(Dense<psd>))", lambda c, nb, pat=pat: Node("mulc", [Node("bdiag", [DensePsd(c, nb + (2,), n)], k=2)], leaves=[c.leaf("k", nb, (), g(2, 3), lead=pat)]), True, cpat=True)
+            add(f"MulConst<c={ptag}>(BlockInterleaved(Dense))", lambda c, nb, pat=pat: Node("mulc", [Node("binter", [Dense(c, nb + (3,), n, n)], k=3)], leaves=[c.leaf("k", nb, (), g(-3, -1), lead=pat)]), cpat=True)
+            add(f"MulConst<c={ptag}>(SumBatch(Dense<psd>))", lambda c, nb, pat=pat: Node("mulc", [Node("sbatch", [DensePsd(c, nb + (3,), n)], k=3)], leaves=[c.leaf("k", nb, (), g(2, 3), lead=pat)]), True, cpat=True)
     add("Matmul(Dense,Dense)", lambda c, nb: Node("mm", [Dense(c, nb, n, 2), Dense(c, nb, 2, n + 1)]))
     add("Matmul(Diag,Toeplitz)", lambda c, nb: Node("mm", [Diag(c, nb, n, pos=False), Toep(c, nb, n)]), exact=False)
     add("Matmul(Dense,ConstantMul(Dense))", lambda c, nb: Node("mm", [Dense(c, nb, n, n), CMul(c, nb, Dense(c, nb, n, 2), pos=False)]))
